@@ -1,7 +1,7 @@
 #!/usr/bin/env bash
 # tools/save_seed.sh <Cxx>: after tools/confirm_seed.sh said CONFIRMED, copy the agent's deliverable
 # from the scratch worktree into /verif/seeded/<Cxx>/ and remove the worktree with its build output.
-id="$1"; wt=/tmp/seed_$id; out=$wt/seed_out; dst=/verif/seeded/$id
+id="$1"; wt=${SEED_ROOT:-/tmp/seed}_$id; out=$wt/seed_out; dst=/verif/seeded/$id${SEED_SUFFIX:-}
 [ -f "$wt/verdict.txt" ] || { echo "$id: no verdict (run tools/confirm_seed.sh $id first)"; exit 2; }
 mkdir -p "$dst"; rm -rf "$dst/demo"
 cp "$out/patch.diff" "$dst/patch.diff"; cp "$out/README.md" "$dst/DEMONSTRATION.md"; cp -r "$out/demo" "$dst/demo"
